@@ -243,6 +243,7 @@ impl Property for C09 {
     }
     fn run(&self, s: &Streams) -> CaseOut {
         let mut out = CaseOut::new();
+        out.owns_panics = true;
         let mut ch = Ch::new(&s[2]);
         let text = if ch.chance(1, 2) {
             out.class("gen:soup");
